@@ -187,6 +187,14 @@ func checkC20(c *Ctx, r *Report) {
 			if v, ok := got[k]; ok {
 				return v
 			}
+			if def >= 0 {
+				return def
+			}
+			// not a switch over constants (a table lookup, an if chain): ask engine E1 what the
+			// function returns when its argument is k
+			if v, ok := constReturn(c, f, k); ok {
+				return v
+			}
 			return def
 		}
 		ok := val(0) == 1 && val(1) == 60 && val(2) == 3600 && val(3) == 86400
@@ -401,4 +409,48 @@ func checksumShape(f *ssa.Function) bool {
 		}
 	}
 	return zero && sum && okBound
+}
+
+
+// constReturn: the integer fn returns when its first parameter equals k, if that is the same
+// constant on every feasible path (engine E1 with the parameter pinned; reads of read-only
+// package-level tables resolve to their initialisers).
+func constReturn(c *Ctx, fn *ssa.Function, k int64) (int64, bool) {
+	if fn == nil || len(fn.Params) == 0 {
+		return 0, false
+	}
+	e := newLenflow(c, 4)
+	var vals []int64
+	okAll := true
+	e.onReturn = func(st *lfState, rets []lfVal) {
+		if len(rets) == 0 {
+			okAll = false
+			return
+		}
+		iv, isInt := rets[0].(vInt)
+		if !isInt {
+			okAll = false
+			return
+		}
+		v, isK := iv.E.isConst()
+		if !isK {
+			okAll = false
+			return
+		}
+		vals = append(vals, v)
+	}
+	e.runEntry(fn, func(fr *lfFrame, st *lfState) {
+		if pv, ok := fr.env[fn.Params[0]].(vInt); ok {
+			st.cons = append(st.cons, geq(pv.E, linConst(k)), leq(pv.E, linConst(k)))
+		}
+	})
+	if e.budgetHit || !okAll || len(vals) == 0 {
+		return 0, false
+	}
+	for _, v := range vals[1:] {
+		if v != vals[0] {
+			return 0, false
+		}
+	}
+	return vals[0], true
 }
